@@ -338,9 +338,9 @@ def splitOn (sep : UInt8) : BS → List BS
 
 def isDnsName (h : BS) : Bool := !h.isEmpty && h.all (dnsChars.contains ·)
 
-/-- dec-octet: 1–3 digits, no leading zero, ≤ 255 -/
+/-- dec-octet: a non-empty digit string without leading zero whose value is at most 255 (hence 1–3 digits) -/
 def isOctet (o : BS) : Bool :=
-  1 ≤ o.length && o.length ≤ 3 && o.all (digitChars.contains ·) && (o.length == 1 || o.head? != some 0x30) && decValue o ≤ 255
+  !o.isEmpty && o.all (digitChars.contains ·) && (o.length == 1 || o.head? != some 0x30) && decValue o ≤ 255
 
 def isIPv4 (h : BS) : Bool :=
   let fs := splitOn 0x2E h
